@@ -56,6 +56,7 @@ impl<'de, R: Reader<'de>> Parser<R> {
 //@sig
         requires old(self).pinv(), old(self).read.idx() >= 1,
             first == old(self).read.data()[old(self).read.idx() - 1], first == 0x2d || is_digit(first),
+            old(self).nospace_start == -128 || old(self).nospace_start <= old(self).read.idx() - 1,
         ensures final(self).pinv(), final(self).same_doc(old(self)),
             ({
                 let s = old(self).read.data();
@@ -131,6 +132,7 @@ impl<'de, R: Reader<'de>> Parser<R> {
 //@loop 1
             invariant self.pinv(), self.same_doc(old(self)), i0 <= self.read.idx(), raw == self.cfg.use_rawnumber,
                 count <= self.read.idx() - i0,
+                first.is_some() ==> (self.nospace_start == -128 || self.nospace_start <= self.read.idx() - 1),
                 first.is_some() ==> self.read.idx() >= 1 && i0 <= self.read.idx() - 1 && first == Some(s[self.read.idx() - 1]) && !is_ws(s[self.read.idx() - 1])
                     && arr_end_l(s, i0) == elems_end_l(s, self.read.idx() - 1)
                     && goal == visitor.trace() + elems_events(s, self.read.idx() - 1, count as nat, raw),
